@@ -37,9 +37,12 @@ const (
 	hCancel
 	hRegCount
 	hStall
+	hSubHealthy
+	hStallClient
+	hResume
 )
 
-var opName = []string{"sub", "sub-busy", "sub-cancelled", "send", "burst", "concurrent", "release", "release-err", "cancel", "regcount", "stall-ms"}
+var opName = []string{"sub", "sub-busy", "sub-cancelled", "send", "burst", "concurrent", "release", "release-err", "cancel", "regcount", "stall-ms", "sub-healthy", "stall-client", "resume"}
 
 type hist struct {
 	ID      int     `json:"id"`
@@ -219,7 +222,7 @@ func dropRegCount(obs []int) []int {
 	return out
 }
 
-var obsName = []string{"Sub", "Write", "Release", "Cancel", "Exited", "Send", "SendEnd", "RegCount"}
+var obsName = []string{"Sub", "Write", "Release", "Cancel", "Exited", "Send", "SendEnd", "RegCount", "Settled"}
 
 func obsString(obs []int) string {
 	var parts []string
@@ -229,6 +232,11 @@ func obsString(obs []int) string {
 			n = obsName[obs[i]]
 		}
 		switch obs[i] {
+		case 8:
+			if obs[i+2] != 0 {
+				n += "(timeout)"
+			}
+			parts = append(parts, n)
 		case 1, 2:
 			parts = append(parts, fmt.Sprintf("%s(%d,%d)", n, obs[i+1], obs[i+2]))
 		default:
@@ -246,7 +254,16 @@ func genRandom(r *rng.R) hist {
 	clients++
 	for i := 1; i < n; i++ {
 		pick := func() int { return 1 + r.Intn(clients) }
-		switch x := r.Intn(26); {
+		switch x := r.Intn(31); {
+		case x >= 26 && x < 28:
+			if clients < 5 {
+				ops = append(ops, []int{hSubHealthy})
+				clients++
+			}
+		case x == 28:
+			ops = append(ops, []int{hStallClient, pick()})
+		case x >= 29:
+			ops = append(ops, []int{hResume, pick()})
 		case x < 3:
 			if clients < 5 {
 				ops = append(ops, []int{hSubFree})
@@ -281,6 +298,127 @@ func genRandom(r *rng.R) hist {
 	return hist{Kind: "forced", Ops: ops, family: "random churn"}
 }
 
+// genStalled: a population of clients stalled in a write (never released unless an operation says so) next to
+// healthy readers, several broadcasts, and in between the stalled ones being cancelled / resumed / released once,
+// healthy ones stalling, and newcomers of both kinds.
+func genStalled(r *rng.R) hist {
+	var ops [][]int
+	nStalled, nHealthy := 1+r.Intn(4), 1+r.Intn(3)
+	kinds := make([]int, 0, nStalled+nHealthy)
+	for i := 0; i < nStalled; i++ {
+		kinds = append(kinds, hSubBusy)
+	}
+	for i := 0; i < nHealthy; i++ {
+		if r.Intn(4) == 0 {
+			kinds = append(kinds, hSubFree) // healthy until the write of its first event
+		} else {
+			kinds = append(kinds, hSubHealthy)
+		}
+	}
+	for i := len(kinds) - 1; i > 0; i-- {
+		j := r.Intn(i + 1)
+		kinds[i], kinds[j] = kinds[j], kinds[i]
+	}
+	for _, k := range kinds {
+		ops = append(ops, []int{k})
+	}
+	clients := len(kinds)
+	pick := func() int { return 1 + r.Intn(clients) }
+	n := 2 + r.Intn(6)
+	for i := 0; i < n; i++ {
+		switch x := r.Intn(20); {
+		case x < 8:
+			ops = append(ops, []int{hSend})
+		case x < 10:
+			ops = append(ops, []int{hBurst, 2 + r.Intn(4)})
+		case x < 12:
+			ops = append(ops, []int{hConcurrent, 2 + r.Intn(3)})
+		case x < 14:
+			ops = append(ops, []int{hCancel, pick()})
+		case x < 15:
+			ops = append(ops, []int{hStallClient, pick()})
+		case x < 16:
+			ops = append(ops, []int{hResume, pick()})
+		case x < 17:
+			ops = append(ops, []int{hReleaseOK, pick()})
+		case x < 18:
+			ops = append(ops, []int{hReleaseErr, pick()})
+		case x < 19:
+			if clients < 8 {
+				ops = append(ops, []int{[]int{hSubBusy, hSubHealthy}[r.Intn(2)]})
+				clients++
+			}
+		default:
+			ops = append(ops, []int{hRegCount})
+		}
+	}
+	ops = append(ops, []int{hSend})
+	return hist{Kind: "forced", Ops: ops, family: "random: stalled writers next to healthy readers, several broadcasts"}
+}
+
+// obsFeatures reads, off the implementation's own observation log, how many clients were stalled in a write and
+// how many were healthy (connected, not cancelled, not inside a write) at each broadcast.
+func obsFeatures(obs []int) []string {
+	type st struct{ blocked, exited, cancelled, broken bool }
+	cl := map[int]*st{}
+	get := func(c int) *st {
+		if cl[c] == nil {
+			cl[c] = &st{}
+		}
+		return cl[c]
+	}
+	capN := func(n int) string {
+		if n >= 3 {
+			return "3+"
+		}
+		return strconv.Itoa(n)
+	}
+	seen := map[string]bool{}
+	var out []string
+	both := 0
+	for i := 0; i+2 < len(obs); i += 3 {
+		a, b := obs[i+1], obs[i+2]
+		switch obs[i] {
+		case 0:
+			get(a)
+		case 1:
+			get(a).blocked = true
+		case 2:
+			get(a).blocked = false
+			if b == 0 {
+				get(a).broken = true
+			}
+		case 3:
+			get(a).cancelled = true
+		case 4:
+			get(a).exited = true
+		case 5:
+			stalled, healthy := 0, 0
+			for _, x := range cl {
+				switch {
+				case x.exited:
+				case x.blocked:
+					stalled++
+				case !x.cancelled && !x.broken:
+					healthy++
+				}
+			}
+			k := "broadcast reaching " + capN(stalled) + " stalled + " + capN(healthy) + " healthy clients"
+			if !seen[k] {
+				seen[k] = true
+				out = append(out, k)
+			}
+			if stalled > 0 && healthy > 0 {
+				both++
+			}
+		}
+	}
+	if both >= 2 {
+		out = append(out, "two or more broadcasts while stalled and healthy clients are connected together")
+	}
+	return out
+}
+
 func features(h hist) []string {
 	var f []string
 	busy := map[int]bool{}
@@ -288,7 +426,7 @@ func features(h hist) []string {
 	sentWhileBusy, cancelAfterSend, anySend, werr, multi := false, false, false, false, false
 	for _, o := range h.Ops {
 		switch o[0] {
-		case hSubFree, hSubCancelled:
+		case hSubFree, hSubCancelled, hSubHealthy:
 			clients++
 		case hSubBusy:
 			clients++
@@ -333,7 +471,7 @@ func features(h hist) []string {
 }
 
 func Run(c *core.Ctx) {
-	c.Rule = "histories = sequences of harness operations (subscribe free/stalled/already-cancelled, broadcast, burst, concurrent broadcasts, release a stalled write with or without error, cancel, read registry size) executed on the real sse.Handler in a -race subprocess: named forced schedules, every sequence over an 8-operation alphabet up to the tier's length, random churn; plus stress runs of proxy.Handler behind httptest.Server with real HTTP clients. distinct non-trivial = distinct operation sequences in which a broadcast is issued while at least one client is registered"
+	c.Rule = "histories = sequences of harness operations (subscribe free/stalled/healthy/already-cancelled, broadcast, burst, concurrent broadcasts, release a stalled write with or without error, a reader stalling / resuming, cancel, read registry size) executed on the real sse.Handler in a -race subprocess: named forced schedules, every sequence over two 8-operation alphabets up to the tier's length, random churn, random populations of stalled writers next to healthy readers with several broadcasts; plus stress runs of proxy.Handler behind httptest.Server with real HTTP clients. distinct non-trivial = distinct operation sequences in which a broadcast is issued while at least one client is registered"
 	c.Trusted = append(c.Trusted,
 		"model coq/model/Sse.v: critical sections of ServeHTTP are atomic steps (straight-line, non-blocking code under the mutex); Go channel/select/mutex semantics as modelled (unbuffered rendezvous, send on closed channel panics, close of closed channel panics)",
 		"extraction: ExtrOcamlBasic only; ocaml/driver.ml",
@@ -379,6 +517,29 @@ func Run(c *core.Ctx) {
 	}
 	for _, ms := range stalls {
 		add("forced: slow reader (stalled for a while) still gets every event", 1, []int{hSubBusy}, []int{hSubFree}, []int{hSend}, []int{hStall, ms}, []int{hSend}, []int{hReleaseOK, 2}, []int{hStall, ms / 4}, []int{hReleaseOK, 1}, []int{hReleaseOK, 1}, []int{hReleaseOK, 2})
+	}
+	// stalled writers (never released before the end) next to healthy readers, several broadcasts: the healthy ones must
+	// have every broadcast at every settle point, whatever the registry's iteration order
+	for k := 1; k <= 4; k++ {
+		for m := 1; m <= 2; m++ {
+			for order := 0; order < 2; order++ {
+				var ops [][]int
+				subs := func(n, kind int) {
+					for i := 0; i < n; i++ {
+						ops = append(ops, []int{kind})
+					}
+				}
+				if order == 0 {
+					subs(k, hSubBusy)
+					subs(m, hSubHealthy)
+				} else {
+					subs(m, hSubHealthy)
+					subs(k, hSubBusy)
+				}
+				ops = append(ops, []int{hBurst, 2 + k}, []int{hSend}, []int{hConcurrent, 2}, []int{hRegCount}, []int{hCancel, 1 + order*m}, []int{hSend}, []int{hRegCount})
+				add("forced: stalled writers next to healthy readers, several broadcasts", c.N(2, 12), ops...)
+			}
+		}
 	}
 	add("forced: edge cases", 3, []int{hSend})
 	add("forced: edge cases", 5, []int{hSubCancelled}, []int{hSend}, []int{hRegCount})
@@ -454,6 +615,26 @@ func Run(c *core.Ctx) {
 	sort.SliceStable(hs[churnStart:], func(i, j int) bool { return len(hs[churnStart+i].Ops) < len(hs[churnStart+j].Ops) })
 	c.Extra["exhaustive_churn_histories"] = len(hs) - churnStart
 	c.Extra["exhaustive_churn_max_ops"] = churnLen
+	// every sequence over an alphabet with stalled writers, healthy readers, and readers changing between the two
+	alphaS := [][]int{{hSubBusy}, {hSubHealthy}, {hSend}, {hCancel, 1}, {hCancel, 2}, {hResume, 1}, {hStallClient, 2}, {hReleaseOK, 1}}
+	stStart := len(hs)
+	var genS func(prefix [][]int, n int)
+	genS = func(prefix [][]int, n int) {
+		if len(prefix) > 0 {
+			hs = append(hs, hist{Kind: "forced", Ops: append([][]int{}, prefix...), family: "exhaustive small sequences with stalled writers and healthy readers"})
+		}
+		if n == 0 {
+			return
+		}
+		for _, a := range alphaS {
+			if len(prefix) == 0 && a[0] != hSubBusy && a[0] != hSubHealthy {
+				continue
+			}
+			genS(append(prefix, a), n-1)
+		}
+	}
+	genS(nil, maxLen)
+	sort.SliceStable(hs[stStart:], func(i, j int) bool { return len(hs[stStart+i].Ops) < len(hs[stStart+j].Ops) })
 	nRand := c.N(5000, 40000)
 	// core's seeds are consecutive SplitMix64 states (seed n+1 = seed n shifted by one draw): fork to decorrelate
 	rnd := c.Rng.Fork()
@@ -463,9 +644,39 @@ func Run(c *core.Ctx) {
 			c.Extra["first_random_history"] = hs[len(hs)-1].String()
 		}
 	}
+	nStalled := c.N(1500, 12000)
+	for i := 0; i < nStalled; i++ {
+		hs = append(hs, genStalled(rnd))
+		if i == 0 {
+			c.Extra["first_stalled_healthy_history"] = hs[len(hs)-1].String()
+		}
+	}
 	nStress := c.N(10, 150)
 	for i := 0; i < nStress; i++ {
 		hs = append(hs, hist{Kind: "stress", Clients: 4 + rnd.Intn(c.N(12, 40)), Rounds: 3 + rnd.Intn(c.N(20, 60)), Seed: rnd.U64(), family: "stress: proxy.Handler over HTTP"})
+	}
+	if c.Replay != "" {
+		// vcheck C19 --replay <file>: run only the histories of the replay file's failures (each several times: which
+		// client a broadcast reaches first depends on Go's map iteration order and the scheduler)
+		var doc struct {
+			Failures []struct {
+				Input struct {
+					Kind string  `json:"kind"`
+					Ops  [][]int `json:"ops"`
+				} `json:"input"`
+			} `json:"failures"`
+		}
+		if b, err := os.ReadFile(c.Replay); err == nil && json.Unmarshal(b, &doc) == nil {
+			hs = nil
+			for _, f := range doc.Failures {
+				if f.Input.Kind == "forced" && len(f.Input.Ops) > 0 {
+					for i := 0; i < 20; i++ {
+						hs = append(hs, hist{Kind: "forced", Ops: f.Input.Ops, family: "replay"})
+					}
+				}
+			}
+			hs = append(hs, hist{Kind: "stress", Clients: 6, Rounds: 5, Seed: 1, family: "stress: proxy.Handler over HTTP"})
+		}
 	}
 	for i := range hs {
 		hs[i].ID = i + 1
@@ -554,7 +765,10 @@ func Run(c *core.Ctx) {
 		}
 		// request 1: the history up to the quiescence point WITHOUT the registry-size readings - it decides whether
 		// every event reached every live client, whatever the registry looks like; request 2: everything (the tie)
-		reqs = append(reqs, drv.Req{Fn: "monitor", Args: [][]byte{obsBytes(dropRegCount(r.Obs[:q]))}}, drv.Req{Fn: "monitor", Args: [][]byte{obsBytes(r.Obs)}})
+		// request 3: the model states at the points where the harness saw the handler come to rest (stalled writers
+		// still stalled) - are they at rest, and does every healthy client have every broadcast there?
+		reqs = append(reqs, drv.Req{Fn: "monitor", Args: [][]byte{obsBytes(dropRegCount(r.Obs[:q]))}}, drv.Req{Fn: "monitor", Args: [][]byte{obsBytes(r.Obs)}},
+			drv.Req{Fn: "audit", Args: [][]byte{obsBytes(dropRegCount(r.Obs))}})
 		reqH = append(reqH, h)
 	}
 	// regression witness through the extracted code: the old variant panics on the forced schedule, the current one does not
@@ -567,7 +781,8 @@ func Run(c *core.Ctx) {
 		ok := len(a) >= 3 && string(a[0]) == "1" && string(a[2]) == "1" && len(b) >= 4 && string(b[0]) == "1" && string(b[2]) == "0" && len(b[3]) == 0
 		c.Oblige("side-condition", "extracted model: the pre-fix variant panics on [subscribe; stalled; broadcast; cancel; leave; deliver], the current variant ends the delivery through done", ok, fmt.Sprintf("old=%q new=%q", a, b))
 	}
-	accepted, delivered, settled, sendOK, noLeak, regOK := true, true, true, true, true, true
+	accepted, delivered, settled, sendOK, noLeak, regOK, atRest := true, true, true, true, true, true, true
+	settlePoints := 0
 	var sendMax int64
 	nForced := 0
 	for i, h := range reqH {
@@ -582,6 +797,9 @@ func Run(c *core.Ctx) {
 				nontrivial = false
 			}
 		}
+		for _, f := range obsFeatures(r.Obs) {
+			c.Hist(f)
+		}
 		c.Hist("family: " + h.family)
 		if nontrivial {
 			key = h.String()
@@ -590,7 +808,7 @@ func Run(c *core.Ctx) {
 		if r.SendMaxNs > sendMax {
 			sendMax = r.SendMaxNs
 		}
-		pre, full := res[2*i], res[2*i+1]
+		pre, full, aud := res[3*i], res[3*i+1], res[3*i+2]
 		in := h.input()
 		in["observed"] = obsString(r.Obs)
 		if len(r.Notes) > 0 {
@@ -615,9 +833,63 @@ func Run(c *core.Ctx) {
 			}
 		}
 		failsBefore := len(c.Fails)
-		if len(full) < 2 || len(pre) < 2 {
+		if len(full) < 2 || len(pre) < 2 || len(aud) < 2 {
 			accepted = false
 			continue
+		}
+		// ---- the settle points: the handler came to rest while the stalled writers stayed stalled ----
+		if np, err := strconv.Atoi(string(aud[0])); err == nil {
+			settlePoints += np
+		}
+		if string(aud[1]) != "0" && len(aud) >= 8 {
+			atRest = false
+			idx, _ := strconv.Atoi(string(aud[2]))
+			pairs := func(b []byte) []string {
+				var out []string
+				for j := 0; j+1 < len(b); j += 2 {
+					out = append(out, fmt.Sprintf("event %d -> client %d", b[j+1], b[j]))
+				}
+				return out
+			}
+			var stalled []string
+			for _, x := range aud[5] {
+				stalled = append(stalled, strconv.Itoa(int(x)))
+			}
+			// the prefix of the observation log (registry readings left out) up to and including that settle point
+			pobs := dropRegCount(r.Obs)
+			if 3*(idx+1) <= len(pobs) {
+				in["observed_up_to_settle_point"] = obsString(pobs[:3*(idx+1)])
+			}
+			const famStall = "a client stalled in its response write holds up nobody: when the handler has come to rest every client in its select has every broadcast sent while it was registered"
+			if starved := pairs(aud[4]); len(starved) > 0 {
+				shape := "event-not-delivered"
+				what := "no client is stalled in a write"
+				if len(stalled) > 0 {
+					what = "client(s) " + strings.Join(stalled, ",") + " are stalled in a write (connected, not cancelled, their write has not returned)"
+				}
+				// narrower shape: an event a healthy client lacks is also still pending for a stalled client
+				// (its delivery to the healthy client sits behind the stalled one)
+				if len(aud) >= 9 {
+					isStalled := map[byte]bool{}
+					for _, x := range aud[5] {
+						isStalled[x] = true
+					}
+					for j := 0; j+1 < len(aud[4]) && shape == "event-not-delivered"; j += 2 {
+						for k := 0; k+1 < len(aud[8]); k += 2 {
+							if aud[8][k+1] == aud[4][j+1] && isStalled[aud[8][k]] {
+								shape = "held-up-behind-stalled-client"
+								break
+							}
+						}
+					}
+				}
+				if c.NFails(famStall) < 4 {
+					c.Fail("property", famStall, shape, in, fmt.Sprintf("at observation #%d (Settled: the harness waited for the handler to come to rest) %s; healthy clients sitting in their select still lack: %s. The model state there is not at rest (stableb false; C19_stable_iff_handler_at_rest: a handler step that needs no stalled client is enabled), so C19_stalled_clients_hold_up_nobody's conclusion fails on the implementation's own history",
+						idx, what, strings.Join(starved, ", ")))
+				}
+			} else if c.NFails("model state at rest at every settle point") < 3 {
+				c.Fail("tie", "model state at rest at every settle point", "", in, fmt.Sprintf("at observation #%d the model state is not at rest: held-up deliveries [%s], a Send in progress: %s", idx, strings.Join(pairs(aud[3]), ", "), aud[7]))
+			}
 		}
 		describe := func(obs []int, reply [][]byte) (int, int, string) {
 			idx, _ := strconv.Atoi(string(reply[1]))
@@ -692,6 +964,8 @@ func Run(c *core.Ctx) {
 	c.Oblige("correspondence", "len(Handler.requests) = model's registry size at every quiescent point", regOK, "")
 	c.Oblige("correspondence", "at the quiescence point the model has nothing pending: every event reached every remaining client of its snapshot (C19_accepted_quiescent_delivered applies)", delivered, "")
 	c.Oblige("correspondence", "the handler settled within the harness timeout after every operation", settled, "")
+	c.Extra["settle_points_judged"] = settlePoints
+	c.Oblige("correspondence", fmt.Sprintf("at each of the %d points where the harness saw the handler come to rest (stalled writers still stalled) the model state is at rest (extracted stableb): every delivery still pending is for a client itself stalled in a write, so every healthy client has every broadcast of its snapshot (C19_settled_points_judged, C19_stalled_clients_hold_up_nobody)", settlePoints), atRest && settlePoints > 0, "")
 	c.Oblige("correspondence", fmt.Sprintf("Send returned within %v in every history although clients were stalled (max %d us)", 2*time.Second, sendMax/1000), sendOK, "")
 	c.Oblige("correspondence", "goroutine count back to the baseline and no goroutine inside package sse after every history", noLeak, "")
 
